@@ -1687,11 +1687,14 @@ class Authenticated(BaseClientHandler):
                     f"[TRYCREATE] No such mailbox: '{cmd.mailbox_name}'"
                 ) from exc
 
-        return self._format_copyuid(
-            dest_mbox,
-            [u for u in src_uids if u is not None],
-            [u for u in dst_uids if u is not None],
-        )
+        # If nothing was copied (a UID set that names no message) there is no
+        # COPYUID: its uid sets can not be empty.
+        #
+        src_uid_list = [u for u in src_uids if u is not None]
+        dst_uid_list = [u for u in dst_uids if u is not None]
+        if not src_uid_list:
+            return None
+        return self._format_copyuid(dest_mbox, src_uid_list, dst_uid_list)
 
     ##################################################################
     #
@@ -1758,8 +1761,11 @@ class Authenticated(BaseClientHandler):
         #
         src_uid_list = [u for u in src_uids if u is not None]
         dst_uid_list = [u for u in dst_uids if u is not None]
-        copyuid = self._format_copyuid(dest_mbox, src_uid_list, dst_uid_list)
-        await self.client.push(f"* OK {copyuid}\r\n")
+        if src_uid_list:
+            copyuid = self._format_copyuid(
+                dest_mbox, src_uid_list, dst_uid_list
+            )
+            await self.client.push(f"* OK {copyuid}\r\n")
 
         # The copy may have queued notifications for this client (eg: when
         # the destination is the mailbox it has selected). They must go out
